@@ -402,7 +402,7 @@ fn main() {
             }
         }
     } else {
-        let n = if args.thorough { 4000 } else { 250 };
+        let n = if args.thorough { 12000 } else { 250 };
         for _ in 0..n {
             cases.push(gen_case(&mut rng, &mut s.stats, args.thorough));
         }
